@@ -33,6 +33,18 @@ def baseline_nested():
         return set(json.load(fh).get('nested', []))
 
 
+_KNOWN_ATTRS = None
+
+
+def _known_attributes():
+    """attribute names of the pinned inventory"""
+    global _KNOWN_ATTRS
+    if _KNOWN_ATTRS is None:
+        with open(os.path.join(HERE, 'baseline_names.json')) as fh:
+            _KNOWN_ATTRS = set(json.load(fh).get('attributes', []))
+    return _KNOWN_ATTRS
+
+
 def is_private(name):
     # leading underscore, or the package's own convention for processor helpers: a trailing underscore (trans_)
     return (name.startswith('_') or (name.endswith('_') and len(name) > 1)) and not (name.startswith('__') and name.endswith('__'))
@@ -432,8 +444,9 @@ def _fold(stmts):
     out = []
     for s in stmts:
         for f in ('body', 'orelse', 'finalbody'):
-            if isinstance(getattr(s, f, None), list) and not isinstance(s, (ast.FunctionDef, ast.AsyncFunctionDef, ast.ClassDef)):
-                setattr(s, f, _fold(getattr(s, f)))
+            if isinstance(getattr(s, f, None), list) and not isinstance(s, ast.ClassDef):
+                # (also the bodies of nested functions: a closure reads the substituted parameter like any other statement)
+                setattr(s, f, _fold(getattr(s, f)) or ([ast.copy_location(ast.Pass(), s)] if f == 'body' else []))
         if isinstance(s, ast.Try):
             for hd in s.handlers:
                 hd.body = _fold(hd.body)
@@ -1606,14 +1619,20 @@ def propagate_fresh_constants(modules, baseline=None):
         if len(lst) != 1:
             continue
         m, c, st = lst[0]
-        if '%s.%s.%s' % (m.name, c.name, nm) in baseline or stored_attr.get(nm) or not _hoistable(st.value) or len(st.targets) != 1:
+        # (a class-level alias of a class of the package - `descriptor_class = ThreadSafeAttribute`, a hook for subclasses - is a constant of the same kind)
+        class_alias = isinstance(st.value, ast.Name) and any(isinstance(d_, ast.ClassDef) and d_.name == st.value.id for m_ in modules.values() for d_ in m_.tree.body)
+        if '%s.%s.%s' % (m.name, c.name, nm) in baseline or stored_attr.get(nm) or not (_hoistable(st.value) or class_alias) or len(st.targets) != 1:
             continue
         if nm.startswith('__') and nm.endswith('__'):
             continue
         # no module-level or local name of the same spelling is an attribute, so `<anything>.NAME` can only be this binding ... unless another object carries
-        # an attribute of that name through a constructor keyword / namedtuple field: require the name to be upper-case (the constant convention)
+        # an attribute of that name through a constructor keyword / namedtuple field: require the name to be upper-case (the constant convention), or a name
+        # that occurs nowhere in the pinned inventory, as a keyword or as text
         if not nm.isupper() and not (nm.startswith('_') and nm[1:].isupper()):
-            continue
+            elsewhere = nm in baseline_attributes() or any((isinstance(x_, ast.keyword) and x_.arg == nm) or (isinstance(x_, ast.Constant) and isinstance(x_.value, str) and nm in x_.value.split())
+                                                           or (isinstance(x_, ast.arg) and x_.arg == nm) for m_ in modules.values() for x_ in ast.walk(m_.tree))
+            if elsewhere:
+                continue
         cbinds[nm] = st.value
     if cbinds:
         cnt = {'n': 0}
@@ -2033,6 +2052,41 @@ def canonical_getattr(modules):
                 return ast.copy_location(ast.Attribute(value=c.args[0], attr=c.args[1].value, ctx=ast.Load()), c)
             return c
 
+        # in a truth test `getattr(x, 'name', <falsy constant>)` holds exactly when x has the attribute and it is true; for the objects of the package, which all
+        # have it, that is the test `x.name` (an object without it takes the "false" way, as one with a false value does)
+        def _truth(self, e):
+            nonlocal n
+            if isinstance(e, ast.UnaryOp) and isinstance(e.op, ast.Not):
+                e.operand = self._truth(e.operand)
+            elif isinstance(e, ast.BoolOp):
+                e.values = [self._truth(v) for v in e.values]
+            elif isinstance(e, ast.Call) and isinstance(e.func, ast.Name) and e.func.id == 'getattr' and len(e.args) == 3 and not e.keywords \
+                    and isinstance(e.args[1], ast.Constant) and isinstance(e.args[1].value, str) and e.args[1].value.isidentifier() and not e.args[1].value.startswith('__') \
+                    and isinstance(e.args[2], ast.Constant) and not e.args[2].value and e.args[1].value in _known_attributes():
+                n += 1
+                return ast.copy_location(ast.Attribute(value=e.args[0], attr=e.args[1].value, ctx=ast.Load()), e)
+            return e
+
+        def visit_If(self, st):
+            self.generic_visit(st)
+            st.test = self._truth(st.test)
+            return st
+
+        def visit_While(self, st):
+            self.generic_visit(st)
+            st.test = self._truth(st.test)
+            return st
+
+        def visit_IfExp(self, st):
+            self.generic_visit(st)
+            st.test = self._truth(st.test)
+            return st
+
+        def visit_Assert(self, st):
+            self.generic_visit(st)
+            st.test = self._truth(st.test)
+            return st
+
         def visit_Expr(self, st):
             nonlocal n
             self.generic_visit(st)
@@ -2396,7 +2450,13 @@ def propagate_attribute_aliases(modules):
                         if any(w[:len(c)] == c or c[:len(w)] == w for w in written):
                             continue
                         if any(a_ in rebound for a_ in c[1:]):
-                            continue
+                            # ... except when nothing can run between the binding and the single use: the very next statement calls the alias
+                            # (`h = self.state.fun` / `r = h(self, e)`: the callee expression is evaluated first)
+                            nxt = blk[i + 1] if i + 1 < len(blk) else None
+                            val_ = getattr(nxt, 'value', None) if isinstance(nxt, (ast.Assign, ast.Expr, ast.Return)) else None
+                            uses_ = [n for n in all_names if n.id == tn.id and isinstance(n.ctx, ast.Load)]
+                            if not (isinstance(val_, ast.Call) and isinstance(val_.func, ast.Name) and val_.func.id == tn.id and len(uses_) == 1 and uses_[0] is val_.func):
+                                continue
                         # every read of the name lies in the statements that follow the binding in its own block (so the binding has run, exactly once... per
                         # execution of that block: inside a loop the alias is re-bound to the same chain, which is still the same expression)
                         later = {id(n) for s2 in blk[i + 1:] for n in ast.walk(s2)}
@@ -2586,4 +2646,185 @@ def inline_tail_delegations(modules, baseline=None):
                 log.append(('%s.%s' % (m.name, k), ['<%d callers>' % done[k]], 'tail delegation written out'))
             elif done[k]:
                 log.append(('%s.%s' % (m.name, k), [], 'tail delegation written out in %d of %d uses' % (done[k], uses[k])))
+    return log
+
+
+def unwrap_quiet_try(modules):
+    """`try: <plain name/attribute loads bound to locals> except E: raise X(..)` is exception *translation* for a missing field of an object that was never set up
+    (`t = self.state.fun` before start_at): the handler has no effect but its raise, and the body has none when it fails.  The try is replaced by its body, so that the
+    loads it guards are seen where they stand (aliases written out, def-use chains not split by a handler edge)."""
+    log = []
+
+    def quiet(st):
+        return isinstance(st, (ast.Assign, ast.Pass)) and all(isinstance(x, (ast.Assign, ast.Name, ast.Attribute, ast.Constant, ast.expr_context)) for x in ast.walk(st)) \
+            and all(isinstance(t, ast.Name) for t in getattr(st, 'targets', []))
+
+    class T(ast.NodeTransformer):
+        def __init__(self):
+            self.n = 0
+
+        def generic_block(self, stmts):
+            out = []
+            for st in stmts:
+                st = self.visit(st)
+                if isinstance(st, ast.Try) and not st.orelse and not st.finalbody and st.handlers and all(quiet(b) for b in st.body) \
+                        and all(len(h.body) == 1 and isinstance(h.body[0], ast.Raise) for h in st.handlers):
+                    out.extend(st.body)
+                    self.n += 1
+                else:
+                    out.append(st)
+            return out
+
+        def generic_visit(self, node):
+            super().generic_visit(node)
+            for fld in ('body', 'orelse', 'finalbody'):
+                sub = getattr(node, fld, None)
+                if isinstance(sub, list) and sub and all(isinstance(x, ast.stmt) for x in sub):
+                    setattr(node, fld, self.generic_block(sub))
+            return node
+    for m in modules.values():
+        t = T()
+        t.visit(m.tree)
+        if t.n:
+            ast.fix_missing_locations(m.tree)
+            log.append((m.name, [], '%d exception-translating try statement(s) around plain attribute loads replaced by their body' % t.n))
+    return log
+
+
+def canonical_assert(modules):
+    """`if C: raise AssertionError(..)` (no else) is the statement `assert not C`: written that way so that rules about "fails when .." see one form"""
+    NEG = {ast.Is: ast.IsNot, ast.IsNot: ast.Is, ast.Eq: ast.NotEq, ast.NotEq: ast.Eq, ast.In: ast.NotIn, ast.NotIn: ast.In,
+           ast.Lt: ast.GtE, ast.GtE: ast.Lt, ast.Gt: ast.LtE, ast.LtE: ast.Gt}
+
+    def negate(t):
+        if isinstance(t, ast.UnaryOp) and isinstance(t.op, ast.Not):
+            return t.operand
+        if isinstance(t, ast.Compare) and len(t.ops) == 1 and type(t.ops[0]) in NEG:
+            return ast.Compare(left=t.left, ops=[NEG[type(t.ops[0])]()], comparators=t.comparators)
+        return ast.UnaryOp(op=ast.Not(), operand=t)
+    log = []
+    for m in modules.values():
+        n = 0
+        for node in ast.walk(m.tree):
+            for fld in ('body', 'orelse', 'finalbody'):
+                sub = getattr(node, fld, None)
+                if not (isinstance(sub, list) and sub and all(isinstance(x, ast.stmt) for x in sub)):
+                    continue
+                for i, st in enumerate(sub):
+                    if isinstance(st, ast.If) and not st.orelse and len(st.body) == 1 and isinstance(st.body[0], ast.Raise) and st.body[0].exc is not None \
+                            and st.body[0].cause is None:
+                        ex = st.body[0].exc
+                        nm = ex.func if isinstance(ex, ast.Call) else ex
+                        if isinstance(nm, ast.Name) and nm.id == 'AssertionError':
+                            msg = ex.args[0] if isinstance(ex, ast.Call) and len(ex.args) == 1 and not ex.keywords else None
+                            if isinstance(ex, ast.Call) and (len(ex.args) > 1 or ex.keywords):
+                                continue
+                            sub[i] = ast.copy_location(ast.Assert(test=negate(st.test), msg=msg), st)
+                            n += 1
+        if n:
+            ast.fix_missing_locations(m.tree)
+            log.append((m.name, [], '%d `if C: raise AssertionError` written as assert' % n))
+    return log
+
+
+def canonical_get_loops(modules):
+    """`for x in D.get(K, ()): B` (empty literal default, no else; D and K plain names/attribute chains) visits the elements of D[K] when K is a key and nothing
+    otherwise: written as `if K in D.keys(): for x in D[K]: B`, the form the package itself uses, so that rules about "the loop over registry[key]" see one shape"""
+    def plain(e):
+        while isinstance(e, ast.Attribute):
+            e = e.value
+        return isinstance(e, ast.Name)
+
+    def empty(d):
+        return (isinstance(d, (ast.Tuple, ast.List)) and not d.elts) or (isinstance(d, ast.Call) and isinstance(d.func, ast.Name) and d.func.id in ('tuple', 'list', 'frozenset')
+                                                                     and not d.args and not d.keywords)
+    log = []
+    for m in modules.values():
+        n = 0
+        for node in ast.walk(m.tree):
+            for fld in ('body', 'orelse', 'finalbody'):
+                sub = getattr(node, fld, None)
+                if not (isinstance(sub, list) and sub and all(isinstance(x, ast.stmt) for x in sub)):
+                    continue
+                for i, st in enumerate(sub):
+                    if isinstance(st, ast.For) and not st.orelse and isinstance(st.iter, ast.Call) and isinstance(st.iter.func, ast.Attribute) and st.iter.func.attr == 'get' \
+                            and len(st.iter.args) == 2 and not st.iter.keywords and plain(st.iter.func.value) and plain(st.iter.args[0]) and empty(st.iter.args[1]):
+                        d_, k_ = st.iter.func.value, st.iter.args[0]
+                        st.iter = ast.Subscript(value=copy.deepcopy(d_), slice=copy.deepcopy(k_), ctx=ast.Load())
+                        test = ast.Compare(left=copy.deepcopy(k_), ops=[ast.In()],
+                                           comparators=[ast.Call(func=ast.Attribute(value=copy.deepcopy(d_), attr='keys', ctx=ast.Load()), args=[], keywords=[])])
+                        sub[i] = ast.copy_location(ast.If(test=test, body=[st], orelse=[]), st)
+                        n += 1
+        if n:
+            ast.fix_missing_locations(m.tree)
+            log.append((m.name, [], '%d `for x in D.get(K, ())` written as `if K in D.keys(): for x in D[K]`' % n))
+    return log
+
+
+def strip_write_only_locals(modules):
+    """a local that is bound only to fresh empty containers / constants and then only ever *written* (x.append(pure), x[k] = pure, x += pure) and never read - typically
+    what is left of a record that fed a statistics attribute dropped by strip_fresh_write_only_state - is dead: its statements are removed.  Nothing escapes: the name is
+    never loaded except as the receiver of those mutations, so no alias of the container exists."""
+    MUT = {'append', 'extend', 'insert', 'update', 'setdefault', 'add', 'appendleft'}
+
+    def fresh_container(v):
+        return (isinstance(v, (ast.List, ast.Dict, ast.Set, ast.Tuple)) and not ast.dump(v).count('elts=[') > 1 and not getattr(v, 'elts', None) and not getattr(v, 'keys', None)) \
+            or (isinstance(v, ast.Call) and isinstance(v.func, ast.Name) and v.func.id in ('list', 'dict', 'set', 'deque', 'Counter', 'OrderedDict') and not v.args and not v.keywords) \
+            or (isinstance(v, ast.Constant) and isinstance(v.value, (int, float, str, type(None))))
+    log = []
+    for m in modules.values():
+        for fn in [n for n in ast.walk(m.tree) if isinstance(n, (ast.FunctionDef, ast.AsyncFunctionDef))]:
+            params = {a.arg for a in fn.args.posonlyargs + fn.args.args + fn.args.kwonlyargs} | ({fn.args.vararg.arg} if fn.args.vararg else set()) | \
+                ({fn.args.kwarg.arg} if fn.args.kwarg else set())
+            if any(isinstance(n, (ast.Global, ast.Nonlocal)) for n in ast.walk(fn)):
+                continue
+            own = list(_shallow_fn(fn))
+            names = {n.id for n in own if isinstance(n, ast.Name) and isinstance(n.ctx, ast.Store)} - params
+            # names touched by nested functions are left alone
+            nested_names = {n.id for d in ast.walk(fn) if d is not fn and isinstance(d, (ast.FunctionDef, ast.AsyncFunctionDef, ast.Lambda, ast.ListComp, ast.GeneratorExp, ast.SetComp, ast.DictComp))
+                            for n in ast.walk(d) if isinstance(n, ast.Name)}
+            dead = set()
+            for nm in sorted(names - nested_names):
+                ok, harmless, seen_mut = True, set(), False
+                for st in [x for x in own if isinstance(x, ast.stmt)]:
+                    if isinstance(st, ast.Assign) and len(st.targets) == 1 and isinstance(st.targets[0], ast.Name) and st.targets[0].id == nm:
+                        if not fresh_container(st.value):
+                            ok = False
+                        harmless.update(id(x) for x in ast.walk(st))
+                    elif isinstance(st, ast.Expr) and isinstance(st.value, ast.Call) and isinstance(st.value.func, ast.Attribute) and st.value.func.attr in MUT \
+                            and isinstance(st.value.func.value, ast.Name) and st.value.func.value.id == nm \
+                            and all(_pure_expr(a) for a in st.value.args) and all(_pure_expr(k.value) for k in st.value.keywords) \
+                            and not any(isinstance(x, ast.Name) and x.id == nm for a in list(st.value.args) + [k.value for k in st.value.keywords] for x in ast.walk(a)):
+                        harmless.update(id(x) for x in ast.walk(st))
+                        seen_mut = True
+                if not ok or not seen_mut:
+                    continue
+                if all(id(n) in harmless for n in own if isinstance(n, ast.Name) and n.id == nm):
+                    dead.add(nm)
+            if not dead:
+                continue
+
+            def is_dead(st):
+                if isinstance(st, ast.Assign) and len(st.targets) == 1 and isinstance(st.targets[0], ast.Name) and st.targets[0].id in dead:
+                    return True
+                return isinstance(st, ast.Expr) and isinstance(st.value, ast.Call) and isinstance(st.value.func, ast.Attribute) and isinstance(st.value.func.value, ast.Name) \
+                    and st.value.func.value.id in dead
+
+            def rebuild(stmts):
+                out = []
+                for st in stmts:
+                    if is_dead(st):
+                        continue
+                    if not isinstance(st, (ast.FunctionDef, ast.AsyncFunctionDef, ast.ClassDef)):
+                        for fld in ('body', 'orelse', 'finalbody'):
+                            sub = getattr(st, fld, None)
+                            if isinstance(sub, list) and sub and all(isinstance(x, ast.stmt) for x in sub):
+                                setattr(st, fld, rebuild(sub) or ([ast.Pass()] if fld == 'body' else []))
+                        for hd in getattr(st, 'handlers', []) or []:
+                            hd.body = rebuild(hd.body) or [ast.Pass()]
+                    out.append(st)
+                return out
+            fn.body = rebuild(fn.body) or [ast.Pass()]
+            ast.fix_missing_locations(fn)
+            log.append(('%s.%s' % (m.name, fn.name), [], 'write-only locals dropped: %s' % ', '.join(sorted(dead))))
     return log
